@@ -819,7 +819,8 @@ TOKEN_KINDS = ["delete", "duplicate", "replace", "junk", "truncate", "negate", "
                "comment_out"]
 FILE_KINDS = ["drop_block", "drop_blank", "read_missing", "read_self", "read_valid", "read_nofile", "read_bare", "read_fle",
               "read_eq", "read_sub_commented", "drop_block_keep_comment", "read_diamond", "read_diamond_retarget",
-              "only_title", "empty"]
+              "dup_once_only", "only_title", "empty"]
+ONCE_ONLY = ("mode", "vol", "u", "lat", "fill", "*fill")
 REF_ROLES = ("surfref", "cellref", "matnum", "trref", "perref", "pval:fill", "dval:fill")
 NUM_ROLES = ("cellnum", "surfnum", "dataword")
 
@@ -979,6 +980,24 @@ def file_corruptions(text, info, rng, name="case.i"):
         out.append((new, {"kind": "read_diamond", "target": "leaf13.txt"}, tree("leaf13.txt")))
         for tgt in ("right13.txt", "left13.txt", "shared13.txt", name, "no_such_file_c13.txt"):
             out.append((new, {"kind": "read_diamond_retarget", "target": tgt}, tree(tgt)))
+    # duplicate an input MCNP (and MontePy: "only allowed once in a problem") allows once: MODE, and the data-block
+    # forms of VOL / U / LAT / FILL — the copy right after the original or at the end of the data block, MODE also
+    # with other particles
+    if len(blanks) >= 3:
+        for b, a, z in info["cards"]:
+            if b != 2:
+                continue
+            first = lines[a].split("$", 1)[0].split()
+            word = first[0].lower() if first else ""
+            if word not in ONCE_ONLY:
+                continue
+            card = lines[a:z + 1]
+            variants = [("after", z + 1, card), ("end", blanks[2], card)]
+            if word == "mode":
+                variants.append(("other", z + 1, [rng.choice(["mode p e", "mode n p", "MODE e", "mode h"])]))
+            for where, at2, what in variants:
+                new = lines[:at2] + what + lines[at2:]
+                out.append(("\n".join(new), {"kind": "dup_once_only", "word": word, "where": where}, None))
     out.append((lines[info["title_line"]] + "\n", {"kind": "only_title"}, None))
     out.append(("", {"kind": "empty"}, None))
     return out
@@ -1056,6 +1075,10 @@ def spec_read(text):
     for card in blocks[2]:
         toks = spec.tokens(card.text)
         out["data"].append(toks[0].lower() if toks else "")
+    # an input that may appear once appears twice in the data block (MontePy: "only allowed once in a problem")
+    for w in ONCE_ONLY:
+        if out["data"].count(w) > 1:
+            inv.append(f"the input {w.upper()} appears {out['data'].count(w)} times in the data block")
     # consistency (only over cards this reader could read)
     cells = [c for c in out["cells"] if c]
     surfs = [x for x in out["surfaces"] if x]
